@@ -499,6 +499,10 @@ class Deep:
         cb = self.F.callee_body(t, body.crate) if f.get("local") else None
         if cb is not None and self._inlinable(fr, cb, path):
             return self._inline(fr, st, cb, args, site, cont)
+        if cb is None and re.search(r"::[A-Z]\w*$", re.sub(r"::<.*?>$", "", path)):
+            v = self._ctor(path, args)
+            if v is not None:
+                return cont(st, v)
         return self._opaque(st, f.get("res") or path, args, site, cont, f)
 
     def _inlinable(self, fr, cb, path):
@@ -614,11 +618,31 @@ class Deep:
             cb = (self.F.body(res, fr.body.crate) or self.F.body(path, fr.body.crate)) if local else None
             if cb is not None and self._inlinable(fr, cb, path):
                 return self._inline(fr, st, cb, list(args), site, cont)
-            ctor = re.match(r"^(.*)::(\w+)$", path)
-            if ctor and len(callee) > 4 and callee[4] and re.search(r"::[A-Z]\w*$", path) and not local:
-                pass
+            v = self._ctor(path, args)
+            if v is not None:
+                return cont(st, v)
             return self._opaque(st, res or path, args, site, cont)
         return self._opaque(st, "<indirect>", [callee] + list(args), site, cont)
+
+    def _ctor(self, path, args):
+        """`Enum::Variant` / tuple-struct constructor used as a function value: the constructed value."""
+        plain = re.sub(r"::<[^<>]*(<[^<>]*(<[^<>]*>[^<>]*)*>[^<>]*)*>", "", path)
+        m = re.match(r"^(.*)::(\w+)$", plain)
+        if not m:
+            return None
+        adt, var = m.group(1), m.group(2)
+        if adt in ("std::option::Option", "core::option::Option") and var == "Some":
+            return self.some(args[0]) if args else None
+        if adt in ("std::result::Result", "core::result::Result") and var in ("Ok", "Err"):
+            return ("variant", "std::result::Result", var, tuple(args))
+        for crate in ("cucumber", "gherkin"):
+            a = self.F.adts.get((crate, adt))
+            if a and any(v["name"] == var for v in a["variants"]):
+                return ("variant", adt, var, tuple(args))
+        a = self.F.adts.get(("cucumber", plain))
+        if a and a.get("kind") == "Struct" and len(a["variants"]) == 1:
+            return ("variant", plain, a["variants"][0]["name"], tuple(args))
+        return None
 
     def _inline(self, fr, st, cb, args, site, cont, self_is_state=False):
         self.fid += 1
